@@ -15,9 +15,10 @@ use dashu_int::{DoubleWord, IBig, UBig, Word};
 use dashu_ratio::{RBig, Relaxed};
 use dv::fl::*;
 use dv::gen::{self, pick};
+use dv::nb::NbInt;
 use dv::*;
 use num_bigint::{BigInt, BigUint};
-use num_integer::{Integer, Roots};
+use num_integer::Roots;
 use num_rational::BigRational;
 use num_traits::{One, Pow, Signed as NSigned, ToPrimitive, Zero};
 use proptest::prelude::*;
@@ -1019,7 +1020,7 @@ fn build_i(op: &IOp, tr: &mut Tr, out: &mut Out) -> IBig {
             let kb = if kb.is_zero() { BigInt::one() } else { kb };
             let kk = n2i(&kb);
             let (q, r) = if alt & 1 == 0 { base().div_rem(&kk) } else { (&base()).div_rem(&kk) };
-            let (qw, rw) = Integer::div_rem(&want, &kb);
+            let (qw, rw) = num_integer::Integer::div_rem(&want, &kb);
             tr.i("quotient", &q, &qw);
             tr.i("remainder", &r, &rw);
             q * kk + r
@@ -1381,7 +1382,7 @@ fn fr_label(r: FR) -> &'static str {
         FR::FShlShr => "route:(x<<j)>>j",
         FR::FNegNeg => "route:-(-x)",
         FR::FClone => "route:clone",
-        FR::FCloneFrom => "route:clone_from onto large",
+        FR::FCloneFrom => "route:clone_from onto a large / a one-digit value",
         FR::FromInt => "route:From<IBig>",
         FR::FromF64 => "route:TryFrom<f64>",
         FR::Const => "route:constant",
@@ -1795,7 +1796,9 @@ fn build_f<R: Round, O: Round, const B: Word>(op: &FOp, tr: &mut Tr, out: &mut O
         }
         FR::FClone => plain().clone(),
         FR::FCloneFrom => {
-            let mut t = FBig::<R, B>::from_parts(IBig::from_parts(sign_of(alt & 1 != 0), large_u(40)), 7);
+            // onto a value with a long significand and a large precision, or onto a one-digit value
+            // whose precision is smaller than the number of digits cloned into it
+            let mut t = if alt & 2 == 0 { FBig::<R, B>::from_parts(IBig::from_parts(sign_of(alt & 1 != 0), large_u(40)), 7) } else { FBig::<R, B>::from_parts(IBig::from_parts(sign_of(alt & 1 != 0), UBig::from(1u8)), -3) };
             t.clone_from(&plain());
             t
         }
